@@ -244,6 +244,10 @@ def _shard_hyp(rec, arg):
         st.tuples(st.integers(-10 ** 6, 10 ** 6), st.integers(1, 10 ** 4)),
         st.tuples(st.integers(-10 ** 30, 10 ** 30), st.just(1)),
         st.tuples(st.integers(-50, 50), st.integers(1, 50)),
+        # within 1e-11 .. 1e-25 of a whole number but not whole (a tolerance-based "clean-up" would snap these),
+        # and huge numerators over huge denominators (a/b with a = k*b + d)
+        st.tuples(st.integers(-100, 100), st.integers(11, 25), st.sampled_from([-1, 1, 2, -3])).map(lambda t: (t[0] * 10 ** t[1] + t[2], 10 ** t[1])),
+        st.tuples(st.integers(-100, 100), st.integers(10 ** 10, 10 ** 14), st.sampled_from([-1, 1])).map(lambda t: (t[0] * t[1] + t[2], 1)),
     ).map(lambda t: Fraction(t[0], t[1]))
 
     def t_pair(op, a, b):
